@@ -99,5 +99,6 @@ package main
 // main: when app.Run reports an error the process must not end with status 0. The normal return of main is
 // exit status 0, so reaching it requires that Run returned nil (os.Exit never returns).
 //@ func main.main
-//@   modifies exitStatus, runFailed, libFailed, libCalls, libReader, lastCtxLive, out, wfail, errSent, ctxCancelled, splSent, lnNodes, lnRootCount, lnRejected, splSharp, splCutOK, ctxDoneSeen, gcRecv, rcRecv, rcSentOK, lnConsumed, gcSent, errRecv
+//@   after Fprint: diagDone := diagDone || arg0 == os.Stderr
+//@   modifies diagDone, exitStatus, runFailed, libFailed, libCalls, libReader, lastCtxLive, out, wfail, errSent, ctxCancelled, splSent, lnNodes, lnRootCount, lnRejected, splSharp, splCutOK, ctxDoneSeen, gcRecv, rcRecv, rcSentOK, lnConsumed, gcSent, errRecv
 //@   ensures status [C16]: !runFailed
